@@ -185,24 +185,25 @@ type sentMsg struct {
 }
 
 type connHarness struct {
-	c         *runner.Ctx
-	w         *world
-	s         *sock
-	schema    *graphql.Schema
-	sent      []*sentMsg
-	processed int // messages fully handled by the read loop
-	instances []*instance
-	live      map[string]*instance // id -> accepted, not ended instance
-	logs      []logEvent
-	liveCount int
-	maxSubs   int
-	served    bool
-	servedSeq uint64
-	echoes    map[string]int
-	results   map[string]int // "result" envelopes per id
-	mutates   map[string]int // mutate messages sent per id
-	bumpNSent int            // read-modify-write mutations sent
-	faulty    bool
+	c          *runner.Ctx
+	w          *world
+	s          *sock
+	schema     *graphql.Schema
+	sent       []*sentMsg
+	processed  int // messages fully handled by the read loop
+	instances  []*instance
+	live       map[string]*instance // id -> accepted, not ended instance
+	logs       []logEvent
+	liveCount  int
+	maxSubs    int
+	served     bool
+	servedSeq  uint64
+	echoes     map[string]int
+	results    map[string]int // "result" envelopes per id
+	errorsByID map[string]int // "error" envelopes per id
+	mutates    map[string]int // mutate messages sent per id
+	bumpNSent  int            // read-modify-write mutations sent
+	faulty     bool
 	// ctxCancelled: the connection context was cancelled (subscriptions then
 	// end themselves with context.Canceled)
 	ctxCancelled bool
@@ -367,12 +368,16 @@ func (h *connHarness) onWrite(m *wireMsg) {
 	if strings.Contains(m.raw, "SECRET-") {
 		c.ViolateFor("C16,C15", "secret-on-the-wire", "the text of an error not marked safe reached the client: %s", m.raw)
 	}
+	if strings.Contains(m.raw, "BURIED") {
+		c.ViolateFor("C16", "buried-safe-error-on-the-wire", "the message of a client-safe error that is only wrapped inside an error not marked safe reached the client: %s", m.raw)
+	}
 	switch m.typ {
 	case "echo":
 		h.echoes[m.id]++
 	case "result":
 		h.results[m.id]++
 	case "error":
+		h.errorsByID[m.id]++
 		if m.byLoop {
 			h.loopErrors[h.s.readCalls-1]++
 		}
@@ -519,7 +524,7 @@ func (h *connHarness) expected(in *instance) (interface{}, bool) {
 func connBody(c *runner.Ctx) {
 	w := newWorld(c)
 	w.live = &liveState{w: w, trackers: map[string][]*liveRes{}, failNext: map[string]int{}, failKind: map[string]int{}, execFired: map[int]int{}}
-	h := &connHarness{c: c, w: w, live: map[string]*instance{}, echoes: map[string]int{}, loopErrors: map[int]int{}, results: map[string]int{}, mutates: map[string]int{}}
+	h := &connHarness{c: c, w: w, live: map[string]*instance{}, echoes: map[string]int{}, loopErrors: map[int]int{}, results: map[string]int{}, mutates: map[string]int{}, errorsByID: map[string]int{}}
 	w.live.onCanceled = func(inst int) {
 		if inst >= 0 && inst < len(h.instances) {
 			h.instances[inst].failedHard = true
@@ -654,7 +659,7 @@ func connBody(c *runner.Ctx) {
 			h.instances = append(h.instances, in)
 			if h.faulty && c.Biased(4, 700, "initial-failure") > 0 {
 				// make one datum the query needs fail on its next invocation
-				h.armFailure(in, c.Choose(6, "failure-kind")+1, 1)
+				h.armFailure(in, c.Choose(7, "failure-kind")+1, 1)
 			}
 			desc = append(desc, fmt.Sprintf("subscribe(%s #%d)", id, in.inst))
 			c.Describe("instance %d id=%s: %s", in.inst, id, in.text)
@@ -693,7 +698,7 @@ func connBody(c *runner.Ctx) {
 				q = "mutation { bumpN }"
 				h.bumpNSent++
 			} else if h.faulty && c.Choose(3, "mutation-fails") == 1 {
-				q = fmt.Sprintf("mutation { fail(kind: %d) }", 1+c.Choose(3, "mutation-fail-kind"))
+				q = fmt.Sprintf("mutation { fail(kind: %d) }", 1+c.Choose(5, "mutation-fail-kind"))
 				c.Fault("mutation-failure")
 			}
 			h.mutates[mid]++
@@ -781,6 +786,16 @@ func connBody(c *runner.Ctx) {
 		simrt.Sleep(time.Second)
 		if h.echoes["final-echo"] != 1 && !h.writeFailed {
 			c.ViolateFor("C15,C02", "connection-dead", "the connection did not answer an echo at quiescence (got %d replies)", h.echoes["final-echo"])
+		}
+		if h.echoes["final-echo"] == 1 && !h.writeFailed {
+			// the connection is alive and has answered everything before the
+			// echo: every mutation sent under an id of its own was answered,
+			// with a result or with an error
+			for _, id := range sortedKeys(h.mutates) {
+				if strings.HasPrefix(id, "m") && h.results[id]+h.errorsByID[id] == 0 {
+					c.ViolateFor("C16,C17", "mutation-not-answered", "the mutate message with id %s got neither a result nor an error envelope", id)
+				}
+			}
 		}
 		for _, in := range h.instances {
 			if in.inBackend > 0 {
@@ -909,7 +924,7 @@ func (h *connHarness) armTransient() {
 		return
 	}
 	in := insts[h.c.Choose(len(insts), "transient-inst")]
-	h.armFailure(in, h.c.Choose(6, "failure-kind")+1, 1+h.c.Choose(2, "failure-count"))
+	h.armFailure(in, h.c.Choose(7, "failure-kind")+1, 1+h.c.Choose(2, "failure-count"))
 	h.c.Fault("transient-failure-armed")
 	// and make sure the datum is re-read
 	for k, n := range h.w.live.failNext {
